@@ -189,12 +189,23 @@ func runC14(c *an.Ctx) {
 		c.Undecided("anchor", "VDRKillReport.Paths/Errors", token.NoPos, "fields not found")
 		return
 	}
+	directReportWrite := func(in ssa.Instruction) bool {
+		return writesFile(p, in, "VdrKill") || writesFile(p, in, "PartialVdr")
+	}
+	reportWriter := &an.MustDo{Pred: directReportWrite, Depth: 1}
 	isReportWrite := func(in ssa.Instruction) bool {
-		if writesFile(p, in, "VdrKill") || writesFile(p, in, "PartialVdr") {
+		if directReportWrite(in) {
 			return true
 		}
-		if cl := an.AsCall(in); cl != nil && cl.Common().StaticCallee() != nil && cl.Common().StaticCallee().Name() == "writePartialKill" {
-			return true
+		if cl := an.AsCall(in); cl != nil && cl.Common().StaticCallee() != nil {
+			h := cl.Common().StaticCallee()
+			if h.Name() == "writePartialKill" {
+				return true
+			}
+			// a helper of the package that writes the report on every path (finalizePartialKill)
+			if h.Blocks != nil && h.Pkg != nil && h.Pkg.Pkg.Path() == corePath && reportWriter.Fn(h) {
+				return true
+			}
 		}
 		return false
 	}
@@ -483,7 +494,7 @@ func ruleW3(c *an.Ctx) {
 		if !ok || call.Call.StaticCallee() == nil || call.Call.StaticCallee().Name() != "HasPrefix" || len(call.Call.Args) != 2 {
 			return false
 		}
-		return isForkState(call.Call.Args[0]) && an.IsConst(call.Call.Args[1], p.Const(pkgCore, prefix))
+		return isForkState(r.Arg(call.Call.Args[0])) && an.IsConst(call.Call.Args[1], p.Const(pkgCore, prefix))
 	}
 	eqState := func(r an.Rel, name string) bool {
 		return relEq(r, isForkState, func(v ssa.Value) bool { return isState(p, v, name) })
